@@ -119,6 +119,22 @@ def run_case(case):
                     add("value", f"MaximumLikelihoodLoss on {case['model']} (batch {B_}) = {float(got)!r}, -mean(log_prob) = {want!r}")
                 if sample is None:
                     sample = {"loss": "ML", "model": case["model"], "batch": B_, "value": float(got), "reference": float(want)}
+        # other valid batch layouts: two leading batch axes, and a condition batch broadcasting against a single x
+        key = keys[0]
+        layouts = [((4, 3, 2), (4, 3, 2) if cond else None)] + ([((2,), (5, 2)), ((6, 2), (3, 1, 2))] if cond else [])
+        for xs_, cs_ in layouts:
+            x = jr.normal(key, xs_) * (0.5 if case["model"] == "wrapped" else 1.0)
+            if case["model"] == "wrapped":
+                x = jnp.tanh(x)
+            c = jr.normal(jr.fold_in(key, 9), cs_) if cs_ is not None else None
+            p, s = part(d)
+            got = MaximumLikelihoodLoss()(p, s, x, c) if cond else MaximumLikelihoodLoss()(p, s, x)
+            lp = unwrap(d).log_prob(x, c)
+            want = -float(np.mean(np.asarray(lp)))
+            tr += 1
+            nt += 1
+            if not close(got, want):
+                add("value-batch-layout", f"MaximumLikelihoodLoss on {case['model']} with x{xs_} condition{cs_}: {float(got)!r}, minus the mean of the {np.asarray(lp).size} log-probabilities = {want!r}")
         # a batch containing a row outside the support: minus the mean log-probability is +inf, not a mean over the rest
         if case["model"] in ("Normal", "wrapped"):
             import flowjax.distributions as D_
